@@ -473,7 +473,7 @@ def replay(ctx, case, res):
 
 def main(ctx):
     res = common.Result()
-    n = 40 if not ctx.thorough else 1300
+    n = 40 if not ctx.thorough else 8000
     for p in common.pmap(shard, [(ctx.bin, ctx.seed, s, n) for s in range(common.NPROC)]):
         res.merge(p)
     res.extras["out_of_domain"] = ["dangling links", "non-UTF-8 names", "special files", "the same file reached by two aliased paths "
